@@ -17,7 +17,7 @@ def harnesses(tier):
         {'name': 'step-N3-W2', 'fn': graph.h_step,
          'cfg': {'prop': 'C16', 'N': 3, 'nW': 2, 'seqlen': 3, 'ops': graph.ALL_OPS}},
         {'name': 'step-N4-W1-hierarchy-ops', 'fn': graph.h_step,
-         'cfg': {'prop': 'C16', 'N': 4, 'nW': 1, 'seqlen': 1, 'ops': graph.HIER_OPS}},
+         'cfg': {'prop': 'C16', 'N': 4, 'nW': 1, 'seqlen': 1, 'ops': graph.HIER_OPS}, 'deadline_s': 3000},
         {'name': 'step-N4-W1-link-ops', 'fn': graph.h_step,
          'cfg': {'prop': 'C16', 'N': 4, 'nW': 1, 'seqlen': 1, 'ops': graph.LINK_OPS + ['list_lshift', 'list_rshift']}},
     ]
